@@ -403,12 +403,15 @@ type bItem struct {
 // exploreShapes: level-synchronous BFS over the durable images of every shape; one work item = (image, commit order).
 func exploreShapes(bc *bCtx, specs []shapeSpec, permsL0, permsDeep [][4]int, maxDepth int, failInj bool, workers int) {
 	// shapes are explored in groups so that the images held in the BFS frontier stay bounded in memory
-	group := 6
+	group := 3
 	if bc.r.Quick() {
 		group = 16
 	}
 	for i := 0; i < len(specs); i += group {
 		exploreShapeGroup(bc, specs[i:min(i+group, len(specs))], permsL0, permsDeep, maxDepth, failInj, workers)
+		// the group's frontier is garbage now: a guard that tripped for this group must not starve the next one
+		runtime.GC()
+		memFull.Store(false)
 	}
 }
 
@@ -528,7 +531,13 @@ func exploreItem(bc *bCtx, it bItem, maxDepth int, failInj bool) {
 	}
 	if o.newErr != nil || o.runErr != nil {
 		r.Outcome("b: uninterrupted run fails")
-		r.Violate("b/uninterrupted-run-fails: "+errClass(o.newErr, o.runErr), map[string]any{"shape": sp.Name, "tx_per_block": sp.Shape, "trace": tr, "newRunnerErr": fmt.Sprint(o.newErr), "runErr": fmt.Sprint(o.runErr)})
+		key := "b/uninterrupted-run-fails: " + errClass(o.newErr, o.runErr) + " [" + failingMigration(o.runErr) + "; history: " + historyKinds(st.trace) + "]"
+		if o.runErr != nil && failingMigration(o.runErr) == "historyprunner" &&
+			contains(o.runErr.Error(), " history at block") && contains(o.runErr.Error(), "key not found") {
+			// one defect class on the unchanged tree (see report): whatever interruption left the database there
+			key = "b/restart-fails: historyprunner cannot resume after a crash or failed commit in its restore phase (history or scratch already wiped, progress only persisted on graceful cancel)"
+		}
+		r.Violate(key, map[string]any{"interruptions_before": historyKinds(st.trace),"shape": sp.Name, "tx_per_block": sp.Shape, "trace": tr, "newRunnerErr": fmt.Sprint(o.newErr), "runErr": fmt.Sprint(o.runErr)})
 		return
 	}
 	fin := o.d.Inner()
@@ -670,4 +679,30 @@ func (c *chain) noBlockLost(img *memory.Database, pruned int, relax bool) string
 func (c *chain) checkBlock(r db.KeyValueReader, b int, relax bool) string {
 	sub := &chain{shape: c.shape[:b+1], txs: c.txs, rcs: c.rcs, encTx: c.encTx, encRc: c.encRc}
 	return sub.checkContentOpt(r, b, false, relax)
+}
+
+// historyKinds summarises which kinds of interruption precede a state (part of the violation key: a restart that
+// fails after a plain crash or cancellation is a different defect class from one that needs an I/O error first).
+func historyKinds(trace string) string {
+	var ks []string
+	for _, k := range []string{"crash-after-commit", inCancelCommit, inCancelGate, inCancelStart, inFail} {
+		if contains(trace, k) {
+			ks = append(ks, k)
+		}
+	}
+	if len(ks) == 0 {
+		return "none"
+	}
+	return fmt.Sprint(ks)
+}
+
+func failingMigration(err error) string {
+	if err == nil {
+		return "start"
+	}
+	var i int
+	if _, e := fmt.Sscanf(err.Error(), "running migration at index %d", &i); e == nil && i < nMig {
+		return prodNames[i]
+	}
+	return "runner"
 }
